@@ -218,7 +218,8 @@ theorem extractParts_spec (x : BigNat) (e2 : Int) (d1 : Nat) (below : List Nat) 
       (extractParts x e2).2 = e2 + (bitLen d1 : Int) - 53 + 31 * (x.digits.length : Int) + k ∧
       2 ^ 52 ≤ (extractParts x e2).1 ∧ (extractParts x e2).1 < 2 ^ 53 ∧
       ∀ N D1 : Nat, 0 < D1 → win d1 (sel2 x.first below) (sel3 x.first below) / 2 ^ (bitLen d1 + 8) = N / D1 →
-        FaithfulN (extractParts x e2).1 N (2 * D1 * 2 ^ k) ∧ NearestUpN (extractParts x e2).1 N (2 * D1 * 2 ^ k) := by
+        FaithfulN (extractParts x e2).1 N (2 * D1 * 2 ^ k) ∧ NearestUpN (extractParts x e2).1 N (2 * D1 * 2 ^ k) ∧
+        (2 ^ 54 - 1) * (2 * D1 * 2 ^ k) ≤ 4 * N := by
   rw [extractParts_eq x e2 d1 below hrev]
   simp only
   rw [window_top54 d1 _ _ h1 h1b h2 h3, round_if_eq]
@@ -243,7 +244,11 @@ theorem extractParts_spec (x : BigNat) (e2 : Int) (d1 : Nat) (below : List Nat) 
       have hev : (t2 + 1) / 2 % 2 = 0 := by simp only [hmm] at hov; omega
       have e : 2 * D1 * 2 ^ 1 = 2 * (2 * D1) := by ring
       rw [e]
-      exact ⟨faithful_halve hev hf, nearest_halve hev hn⟩
+      refine ⟨faithful_halve hev hf, nearest_halve hev hn, ?_⟩
+      have ht2 : 2 ^ 54 - 1 ≤ t2 := by simp only [hmm] at hov; omega
+      rw [ht] at ht2
+      have := (Nat.le_div_iff_mul_le hD).1 ht2
+      nlinarith
   · refine ⟨0, by omega, ?_, ?_, ?_, ?_⟩
     · rw [if_neg hov]; simp only [hmb, hnb]; push_cast; ring
     · rw [if_neg hov]; omega
@@ -255,7 +260,12 @@ theorem extractParts_spec (x : BigNat) (e2 : Int) (d1 : Nat) (below : List Nat) 
       rw [← ht] at hf hn
       have e : 2 * D1 * 2 ^ 0 = 2 * D1 := by ring
       rw [e]
-      exact ⟨hf, hn⟩
+      refine ⟨hf, hn, ?_⟩
+      have ht2 : 2 ^ 53 ≤ t2 := hlo
+      rw [ht] at ht2
+      have := (Nat.le_div_iff_mul_le hD).1 ht2
+      have p54' : (2 : Nat) ^ 54 - 1 ≤ 2 * 2 ^ 53 := by norm_num
+      nlinarith
 
 /-! ### the window brackets the number held in the array -/
 
@@ -375,6 +385,7 @@ theorem bigBase_pow (k : Nat) : bigBase ^ k = 2 ^ (31 * k) := by
 theorem extract_faithful_pos_core (x : BigNat) (hi : MantInv x) (hne : x.digits ≠ []) :
     ∃ G : Nat, (extractParts x 0).2 + 31 = (G : Int) ∧
       FaithfulN (extractParts x 0).1 (x.val * 2 ^ 31) (2 ^ G) ∧ NearestUpN (extractParts x 0).1 (x.val * 2 ^ 31) (2 ^ G) ∧
+      (2 ^ 54 - 1) * 2 ^ G ≤ 4 * (x.val * 2 ^ 31) ∧
       2 ^ 52 ≤ (extractParts x 0).1 ∧ (extractParts x 0).1 < 2 ^ 53 := by
   cases hr : x.digits.reverse with
   | nil => simp at hr; exact absurd hr hne
@@ -402,7 +413,7 @@ theorem extract_faithful_pos_core (x : BigNat) (hi : MantInv x) (hne : x.digits 
       rw [bigBase_pow]; ring
     have e31 : bigBase = 2 ^ 31 := by decide
     rw [e, e31] at hF
-    refine ⟨31 * (n - 1) + (bitLen d1 + 8) + 1 + k, ?_, hF.1, hF.2, hlo, hhi⟩
+    refine ⟨31 * (n - 1) + (bitLen d1 + 8) + 1 + k, ?_, hF.1, hF.2.1, hF.2.2, hlo, hhi⟩
     rw [he]; push_cast; omega
 
 /-- ★ fractions (negative exponent branch): if the part of the array above `digits[0]` is `⌊num/den⌋` (which
@@ -413,6 +424,7 @@ theorem extract_faithful_neg_core (x : BigNat) (e2 : Int) (num den : Nat) (hden 
     (hU : upper x = num / den) :
     ∃ G : Nat, (extractParts x e2).2 = e2 + 62 + (G : Int) ∧
       FaithfulN (extractParts x e2).1 num (den * 2 ^ G) ∧ NearestUpN (extractParts x e2).1 num (den * 2 ^ G) ∧
+      (2 ^ 54 - 1) * (den * 2 ^ G) ≤ 4 * num ∧
       2 ^ 52 ≤ (extractParts x e2).1 ∧ (extractParts x e2).1 < 2 ^ 53 := by
   cases hr : x.digits.reverse with
   | nil => simp at hr; rw [hr] at hn4; simp at hn4
@@ -434,7 +446,7 @@ theorem extract_faithful_neg_core (x : BigNat) (e2 : Int) (num den : Nat) (hden 
     have e : 2 * (den * bigBase ^ (n - 4) * 2 ^ (bitLen d1 + 8)) * 2 ^ k = den * 2 ^ (31 * (n - 4) + (bitLen d1 + 8) + 1 + k) := by
       rw [bigBase_pow]; ring
     rw [e] at hF
-    refine ⟨31 * (n - 4) + (bitLen d1 + 8) + 1 + k, ?_, hF.1, hF.2, hlo, hhi⟩
+    refine ⟨31 * (n - 4) + (bitLen d1 + 8) + 1 + k, ?_, hF.1, hF.2.1, hF.2.2, hlo, hhi⟩
     rw [he]; push_cast; omega
 
 end JanetModel.Strtod
